@@ -11,7 +11,9 @@ import (
 // v128 is the generator's own 128-bit value (independent of the package under test).
 type v128 struct{ hi, lo uint64 }
 
-func (v v128) String() string { return strconv.FormatUint(v.hi, 16) + ":" + strconv.FormatUint(v.lo, 16) }
+func (v v128) String() string {
+	return strconv.FormatUint(v.hi, 16) + ":" + strconv.FormatUint(v.lo, 16)
+}
 
 func (v v128) big() *big.Int {
 	b := new(big.Int).SetUint64(v.hi)
@@ -111,8 +113,52 @@ var specials = []v128{
 	{0, 1 << 32}, {0, 1<<32 - 1}, {1 << 32, 0},
 }
 
+// limits128: 0, +-1, +-2, Min/Max of Int128 and neighbours, MaxUint128, 2^64 neighbours (drawn with extra weight, so that
+// every operand position of every op sees exactly 0 and the type limits on every run)
+var limits128 = []v128{
+	{0, 0}, {0, 0}, {0, 0}, {0, 1}, {0, 2}, {^uint64(0), ^uint64(0)}, {^uint64(0), ^uint64(0) - 1},
+	{1 << 63, 0}, {1 << 63, 1}, {1 << 63, 2}, {1<<63 - 1, ^uint64(0)}, {1<<63 - 1, ^uint64(0) - 1},
+	{0, ^uint64(0)}, {1, 0}, {1, 1}, {0, 1 << 63}, {^uint64(0), 1 << 63}, {^uint64(0), 0},
+}
+
+// nearLimit returns a value within 2^k (k uniform in 0..64) of MinInt128, MaxInt128, 0 (from below: small negatives) or
+// MaxUint128: the receivers for which compare-by-subtraction, `a+b` and `a-b` wrap against a 64-bit operand of the
+// opposite direction (a uniformly random receiver is in that window with probability 2^-64).
+func nearLimit(r *hx.Rng) v128 {
+	k := uint(r.Intn(65))
+	var d uint64
+	if k > 0 {
+		d = (r.U64() | 1<<63) >> (64 - k)
+	}
+	if r.Chance(1, 4) {
+		d = hx.Pick(r, limitWords)
+	}
+	db := new(big.Int).SetUint64(d)
+	switch r.Intn(5) {
+	case 0: // MinInt128 + d
+		return fromBig(db.Add(db, v128{1 << 63, 0}.big()))
+	case 1: // MaxInt128 - d
+		return fromBig(db.Sub(v128{1<<63 - 1, ^uint64(0)}.big(), db))
+	case 2: // -d
+		return fromBig(db.Neg(db))
+	case 3: // MaxUint128 - d (= -1 - d)
+		return fromBig(db.Sub(v128{^uint64(0), ^uint64(0)}.big(), db))
+	default: // 2^64 +- d
+		if r.Bool() {
+			return fromBig(db.Add(v128{1, 0}.big(), db))
+		}
+		return fromBig(db.Sub(v128{1, 0}.big(), db))
+	}
+}
+
 // genU is the operand mixture of the design.
 func genU(r *hx.Rng) v128 {
+	if r.Chance(1, 12) {
+		return hx.Pick(r, limits128)
+	}
+	if r.Chance(1, 12) {
+		return nearLimit(r)
+	}
 	switch r.Intn(14) {
 	case 0, 1: // uniform
 		return v128{r.U64(), r.U64()}
@@ -163,11 +209,17 @@ func genU(r *hx.Rng) v128 {
 
 func or128(a, b v128) v128 { return v128{a.hi | b.hi, a.lo | b.lo} }
 
+// limitWords: 0, +-1, MinInt64 / MaxInt64 / MaxUint64 and neighbours (drawn with extra weight)
+var limitWords = []uint64{0, 0, 1, 2, ^uint64(0), ^uint64(0) - 1, 1 << 63, 1<<63 + 1, 1<<63 - 1, 1<<63 - 2, 1 << 62, 1<<62 + 1, 1 << 32, 10}
+
 var words = []uint64{0, 1, 2, 3, 10, 1 << 31, 1<<32 - 1, 1 << 32, 1<<32 + 1, 1<<63 - 1, 1 << 63, 1<<63 + 1, ^uint64(0), ^uint64(0) - 1,
 	0x8000000000000000 - 2, 0x80000000ffffffff, 0x8000000100000000, 0xffffffff00000000, 0x00000000ffffffff}
 
 // genW is the mixture for 64-bit operands (also used as int64 bit patterns).
 func genW(r *hx.Rng) uint64 {
+	if r.Chance(1, 6) {
+		return hx.Pick(r, limitWords)
+	}
 	switch r.Intn(8) {
 	case 0:
 		return hx.Pick(r, words)
@@ -201,7 +253,70 @@ func genW(r *hx.Rng) uint64 {
 // genDivPair builds (dividend, divisor) pairs that reach every path of the division dispatch and every correction
 // branch of the kernels.
 func genDivPair(r *hx.Rng) (u, n v128) {
-	switch r.Intn(12) {
+	u, n = genDivPair0(r)
+	// exactly zero in either position, and in both (all twelve entry points draw from here)
+	switch r.Intn(40) {
+	case 0:
+		u = v128{}
+	case 1:
+		n = v128{}
+	case 2:
+		u, n = v128{}, v128{}
+	case 3:
+		u = hx.Pick(r, limits128)
+	case 4:
+		n = hx.Pick(r, limits128)
+	}
+	return u, n
+}
+
+// genMultiple: u = q*n + rem with a divisor wider than a word, q = 2^k + small with k centred on the dispatch threshold
+// (2^15, 2^16, 2^17, ...) or uniform, and rem in {0, 1, 2, n-2, n-1, random}: the inputs on which the estimate of
+// divmod128by128 is one short and the remainder before the final correction equals the divisor exactly.
+func genMultiple(r *hx.Rng) (u, n v128) {
+	bn := r.Range(65, 112)
+	n = withBitLen(r, bn)
+	maxq := 128 - bn
+	k := r.Range(12, 22)
+	if r.Chance(1, 3) {
+		k = r.Intn(maxq + 1)
+	}
+	if k > maxq {
+		k = maxq
+	}
+	q := new(big.Int).Lsh(big.NewInt(1), uint(k))
+	q.Add(q, big.NewInt(int64(r.Range(-2, 2))))
+	if r.Chance(1, 4) {
+		q = withBitLen(r, k).big()
+	}
+	if q.Sign() <= 0 {
+		q = big.NewInt(1)
+	}
+	b := new(big.Int).Mul(q, n.big())
+	switch r.Intn(7) {
+	case 0, 1:
+	case 2:
+		b.Add(b, big.NewInt(int64(r.Range(1, 2))))
+	case 3:
+		b.Sub(b, big.NewInt(int64(r.Range(1, 2))))
+	case 4:
+		b.Add(b, n.big()).Sub(b, big.NewInt(int64(r.Range(1, 2))))
+	default:
+		b.Add(b, new(big.Int).Mod(v128{r.U64(), r.U64()}.big(), n.big()))
+	}
+	if b.Sign() < 0 || b.BitLen() > 128 {
+		b = new(big.Int).Mul(big.NewInt(1<<15), n.big())
+		if b.BitLen() > 128 {
+			b = n.big()
+		}
+	}
+	return fromBig(b), n
+}
+
+func genDivPair0(r *hx.Rng) (u, n v128) {
+	switch r.Intn(14) {
+	case 12, 13:
+		return genMultiple(r)
 	case 10, 11:
 		return genKnuthPair(r)
 	case 0: // free mixture (also hits 0 divisors, equal operands, u < n)
@@ -216,7 +331,7 @@ func genDivPair(r *hx.Rng) (u, n v128) {
 		return withBitLen(r, bu), withBitLen(r, bn)
 	case 3: // around the binary/Knuth threshold
 		bn := r.Range(1, 111)
-		d := r.Range(13, 20)
+		d := r.Range(4, 36) // the threshold is 16 in the reference tree; a tree with another value stays covered
 		bu := bn + d
 		if bu > 128 {
 			bu = 128
@@ -335,11 +450,28 @@ func genKnuthPair(r *hx.Rng) (u, n v128) {
 	return u, n
 }
 
-var shiftCounts = []uint64{0, 1, 2, 31, 32, 33, 62, 63, 64, 65, 66, 95, 96, 126, 127, 128, 129, 130, 191, 192, 255, 256, 1 << 31, 1 << 32, 1<<32 + 64,
-	1 << 63, 1<<63 + 1, ^uint64(0), ^uint64(0) - 63}
-var bitIndexes = []int64{-1, -2, -64, -128, 0, 1, 31, 32, 62, 63, 64, 65, 95, 96, 126, 127, 128, 129, 191, 192, 255, 256, 1 << 31, 1 << 32, 1<<32 + 5,
+var shiftCounts = []uint64{0, 1, 2, 31, 32, 33, 62, 63, 64, 65, 66, 95, 96, 97, 126, 127, 128, 129, 130, 160, 191, 192, 193, 255, 256, 257, 320,
+	1000, 1023, 1024, 4096, 65535, 65536, 1 << 20, 1<<20 + 1, 1<<20 + 65, 1 << 31, 1 << 32, 1<<32 + 1, 1<<32 + 64, 1<<32 + 65,
+	1 << 63, 1<<63 + 1, 1<<63 + 64, ^uint64(0), ^uint64(0) - 63, ^uint64(0) - 64}
+
+// genCount: shift counts. Besides the list: uniform in 0..130, 64·m + j for large m (a masked count `(n-64)&63` looks
+// right below 128 and wrong from 128 on), and 2^k + small.
+func genCount(r *hx.Rng) uint64 {
+	switch r.Intn(5) {
+	case 0, 1:
+		return hx.Pick(r, shiftCounts)
+	case 2:
+		return uint64(r.Intn(131))
+	case 3:
+		return 64*uint64(r.Range(2, 40)) + uint64(r.Intn(64))
+	default:
+		return uint64(1)<<uint(r.Intn(64)) + uint64(r.Intn(130))
+	}
+}
+
+var bitIndexes = []int64{-1, -2, -63, -64, -65, -127, -128, -129, 1<<63 - 2, 1<<63 - 64, -1<<63 + 1, 1 << 62, 1000, 0, 1, 31, 32, 62, 63, 64, 65, 95, 96, 126, 127, 128, 129, 191, 192, 255, 256, 1 << 31, 1 << 32, 1<<32 + 5,
 	-1 << 63, 1<<63 - 1, -1<<63 + 64, -1 << 32}
-var setBitValues = []uint64{0, 1, 2, 3, 1 << 32, ^uint64(0)}
+var setBitValues = []uint64{0, 1, 2, 3, 255, 256, 1 << 32, 1 << 63, ^uint64(0)}
 
 var uOpsUU = []string{"add", "sub", "mul", "and", "or", "xor", "andnot", "andnot64", "cmp", "gt", "ge", "eq", "lt", "le"}
 var uOpsUW = []string{"add64", "sub64", "mul64", "and64", "or64", "xor64", "cmp64", "gt64", "ge64", "eq64", "lt64", "le64"}
@@ -369,6 +501,39 @@ func near(r *hx.Rng, a v128) v128 {
 	default:
 		return v128{a.hi ^ 1<<63, a.lo}
 	}
+}
+
+// overflowPair returns a signed receiver within d of MinInt128 / MaxInt128 and a 64-bit magnitude m in
+// {d-1, d, d+1, 2d, random}: with the operand pointing away from zero, a-n resp. a+n lands exactly on, one short of, or
+// one past the type limit (comparator-by-subtraction, wrapped Add64/Sub64).  neg says whether the receiver is near Min.
+func overflowPair(r *hx.Rng) (a v128, m uint64, nearMin bool) {
+	k := uint(r.Intn(63))
+	var d uint64
+	if k > 0 {
+		d = (r.U64() | 1<<63) >> (64 - k)
+	}
+	switch r.Intn(6) {
+	case 0:
+		m = d - 1
+	case 1:
+		m = d
+	case 2:
+		m = d + 1
+	case 3:
+		m = 2 * d
+	case 4:
+		m = r.U64() >> 1
+	default:
+		m = hx.Pick(r, []uint64{1, 2, 1<<63 - 1, 1 << 63, 1 << 62})
+	}
+	db := new(big.Int).SetUint64(d)
+	nearMin = r.Bool()
+	if nearMin {
+		a = fromBig(db.Add(db, v128{1 << 63, 0}.big()))
+	} else {
+		a = fromBig(db.Sub(v128{1<<63 - 1, ^uint64(0)}.big(), db))
+	}
+	return a, m, nearMin
 }
 
 func (area) Gen(r *hx.Rng, n int, _ string, emit func(string)) {
@@ -433,10 +598,7 @@ func (area) Gen(r *hx.Rng, n int, _ string, emit func(string)) {
 		case c < 76:
 			emit("u " + hx.Pick(r, uOpsU) + " " + genU(r).String())
 		case c < 80:
-			cnt := hx.Pick(r, shiftCounts)
-			if r.Bool() {
-				cnt = uint64(r.Intn(131))
-			}
+			cnt := genCount(r)
 			op := "shl"
 			if r.Bool() {
 				op = "shr"
@@ -460,6 +622,18 @@ func (area) Gen(r *hx.Rng, n int, _ string, emit func(string)) {
 			if r.Chance(1, 3) {
 				b = near(r, a)
 			}
+			if r.Chance(1, 5) {
+				var m uint64
+				var nearMin bool
+				a, m, nearMin = overflowPair(r)
+				b = v128{0, m}
+				if r.Bool() == nearMin { // half of the time pointing away from zero (a-b overflows), half towards (a+b)
+					b = fromBig(new(big.Int).Neg(b.big()))
+				}
+				if r.Bool() {
+					a, b = b, a
+				}
+			}
 			emit("i " + hx.Pick(r, iOpsII) + " " + a.String() + " " + b.String())
 		case c < 96:
 			a := genU(r)
@@ -472,6 +646,18 @@ func (area) Gen(r *hx.Rng, n int, _ string, emit func(string)) {
 					} else {
 						a.hi = 0
 					}
+				}
+			}
+			if r.Chance(1, 3) {
+				var m uint64
+				var nearMin bool
+				a, m, nearMin = overflowPair(r)
+				if m > 1<<63 {
+					m = 1 << 63
+				}
+				w = m
+				if r.Bool() == nearMin {
+					w = -m
 				}
 			}
 			emit("i " + hx.Pick(r, iOpsIW) + " " + a.String() + " " + xw(w))
